@@ -117,6 +117,10 @@ def cases(seed, tier):
     for i in range(n_graph):
         out.append({"gen": "graph", "seed": rng.randrange(2 ** 31), "max_n": 30 if quick else 60, "history": hist[i % 2], "scale": scales[i % len(scales)],
                     "reverse": i % 3 == 1})
+    # one vertex of very high valence (hub of a star-shaped polyline, apex of a fan or cone): degrees of 127, 128 and more
+    for i, hub in enumerate([127, 128, 200] if quick else [127, 128, 129, 200, 255, 256, 257, 300, 1000]):
+        out.append({"gen": "graph", "seed": rng.randrange(2 ** 31), "max_n": 30, "history": hist[i % 2], "scale": 1.0, "reverse": i % 2 == 1, "hub": hub})
+        out.append({"gen": "tri", "anchor": "fan%d" % hub, "seed": 1, "generic": False, "history": HIST[i % len(HIST)], "vrows": "list", "irows": "list", "fmt": "csc"})
     return out
 
 
@@ -1033,6 +1037,15 @@ def _graph_case(ctx, desc):
     import mouette as M
     O = M.operators
     V, E, cls = graphs.make(desc["seed"], max_n=desc["max_n"])
+    if desc.get("hub"):
+        # a star with `hub` branches around a new vertex, attached to the drawn graph
+        V = np.asarray(V, float)
+        h = len(V)
+        k = int(desc["hub"])
+        ring = [[3.0 + math.cos(2 * math.pi * j / k), math.sin(2 * math.pi * j / k), 0.1 * (j % 3)] for j in range(k)]
+        V = np.vstack([V, [[3.0, 0.0, 0.0]], ring])
+        E = list(E) + [(h, h + 1 + j) for j in range(k)]
+        cls = "star_with_%d_branches" % k
     V = _rescale(ctx, desc, V)
     rng = random.Random(desc["seed"] ^ 0xC08)
     raw_E = [(b, a) if (desc["reverse"] and rng.random() < 0.5) else (a, b) for (a, b) in E]
@@ -1071,6 +1084,8 @@ def run_case(desc, ctx):
             V, F = np.array([[0, 0, 0], [1, 0, 0], [0.3, 0.8, 0.1]], float), [[0, 1, 2]]
         elif a == "two_triangles":
             V, F = np.array([[0, 0, 0], [1, 0, 0], [1, 1, 0], [0, 1, 0.3]], float), [[0, 1, 2], [0, 2, 3]]
+        elif a.startswith("fan"):
+            V, F, _ = surfaces.fan(int(a[3:]), closed=True)
         elif a == "tetra_surface":
             V, F, _ = surfaces.tetra_surface()
         else:
